@@ -38,8 +38,8 @@ PROPS = {
  ),
  'C14': dict(
     group='codec', only=['param', 'msg.dec'], ops=['param.new', 'msg.dec'],
-    modules=['Ysshra.Props.C14', 'Ysshra.Props.C15', 'Ysshra.Bridge.SnapParam', 'Ysshra.Bridge.SnapMessage', 'Ysshra.Bridge.Message'],
-    theorem_files=['Props/C14.lean', 'Bridge/SnapParam.lean', 'Bridge/SnapMessage.lean'],
+    modules=['Ysshra.Props.C14', 'Ysshra.Props.C15', 'Ysshra.Bridge.SnapParam', 'Ysshra.Bridge.SnapMessage', 'Ysshra.Bridge.Message', 'Ysshra.Bridge.Param'],
+    theorem_files=['Props/C14.lean', 'Bridge/SnapParam.lean', 'Bridge/SnapMessage.lean', 'Bridge/Param.lean'],
     anchors=['csr/', 'message/', 'sshutils/version', 'common/'],
     n=dict(quick=1500, thorough=60000),
     trivial=lambda c: (c['model'] or ['?'])[0] == 'err' and c['op'] == 'param.new' and c['args'][0] == '!' and False,
@@ -141,8 +141,8 @@ PROPS = {
  'C20': dict(
     group='conc', only=['cond'], ops=['cond'], build_flags=['-race'],
     klass=lambda c: 'cond:events' + str(c['args'][0].count(',') + 1),
-    modules=['Ysshra.Props.C20', 'Ysshra.Bridge.Wire', 'Ysshra.Bridge.SnapShim', 'Ysshra.Bridge.SnapYubi'],
-    theorem_files=['Props/C20.lean', 'Bridge/Wire.lean', 'Bridge/SnapShim.lean', 'Bridge/SnapYubi.lean'],
+    modules=['Ysshra.Props.C20', 'Ysshra.Bridge.Wire', 'Ysshra.Bridge.SnapShim', 'Ysshra.Bridge.SnapYubi', 'Ysshra.Props.C20b'],
+    theorem_files=['Props/C20.lean', 'Bridge/Wire.lean', 'Bridge/SnapShim.lean', 'Bridge/SnapYubi.lean', 'Props/C20b.lean'],
     anchors=['agent/shimagent/shimserver.go', 'agent/yubiagent/server.go'],
     n=dict(quick=150, thorough=3000),
     timeout=dict(quick=900, thorough=3400),
@@ -217,8 +217,8 @@ PROPS = {
  'C01': dict(
     group='gensign', only=['gs'], ops=['gs'],
     klass=lambda c: 'gs:runs' + str(c['args'][1].count(';') + 1) + ':' + ('ok' if 'res=ok' in ((c['model'] or [''])[0]) else 'noSuccess'),
-    modules=['Ysshra.Props.C01', 'Ysshra.Bridge.Gensign', 'Ysshra.Bridge.SnapGensignAux', 'Ysshra.Bridge.SnapTls', 'Ysshra.Bridge.SnapKeyId'],
-    theorem_files=['Props/C01.lean', 'Bridge/Gensign.lean', 'Bridge/SnapGensignAux.lean', 'Bridge/SnapTls.lean', 'Bridge/SnapKeyId.lean'],
+    modules=['Ysshra.Props.C01', 'Ysshra.Bridge.Gensign', 'Ysshra.Bridge.SnapGensignAux', 'Ysshra.Bridge.SnapTls', 'Ysshra.Bridge.SnapKeyId', 'Ysshra.Props.C02b'],
+    theorem_files=['Props/C01.lean', 'Bridge/Gensign.lean', 'Bridge/SnapGensignAux.lean', 'Bridge/SnapTls.lean', 'Bridge/SnapKeyId.lean', 'Props/C02b.lean'],
     anchors=['gensign/', 'agent/ssh/', 'csr/', 'crypki/common.go'],
     n=dict(quick=600, thorough=30000),
     timeout=dict(quick=900, thorough=3400),
@@ -232,8 +232,8 @@ PROPS = {
  'C02': dict(
     group='gensign', only=['gs'], ops=['gs'],
     klass=lambda c: 'gs:runs' + str(c['args'][1].count(';') + 1) + ':' + ('ok' if 'res=ok' in ((c['model'] or [''])[0]) else 'noSuccess'),
-    modules=['Ysshra.Props.C02', 'Ysshra.Bridge.Gensign', 'Ysshra.Bridge.SnapGensignAux', 'Ysshra.Bridge.KeyId', 'Ysshra.Bridge.SnapKeyId', 'Ysshra.Bridge.SnapTls'],
-    theorem_files=['Props/C02.lean', 'Bridge/Gensign.lean', 'Bridge/SnapGensignAux.lean', 'Bridge/KeyId.lean', 'Bridge/SnapKeyId.lean', 'Bridge/SnapTls.lean'],
+    modules=['Ysshra.Props.C02', 'Ysshra.Bridge.Gensign', 'Ysshra.Bridge.SnapGensignAux', 'Ysshra.Bridge.KeyId', 'Ysshra.Bridge.SnapKeyId', 'Ysshra.Bridge.SnapTls', 'Ysshra.Props.C02b'],
+    theorem_files=['Props/C02.lean', 'Bridge/Gensign.lean', 'Bridge/SnapGensignAux.lean', 'Bridge/KeyId.lean', 'Bridge/SnapKeyId.lean', 'Bridge/SnapTls.lean', 'Props/C02b.lean'],
     anchors=['gensign/', 'agent/ssh/', 'csr/', 'crypki/common.go'],
     n=dict(quick=600, thorough=30000),
     timeout=dict(quick=900, thorough=3400),
@@ -247,8 +247,8 @@ PROPS = {
  'C03': dict(
     group='gensign', only=['gs'], ops=['gs'],
     klass=lambda c: 'gs:runs' + str(c['args'][1].count(';') + 1) + ':' + ('ok' if 'res=ok' in ((c['model'] or [''])[0]) else 'noSuccess'),
-    modules=['Ysshra.Props.C03', 'Ysshra.Bridge.Gensign', 'Ysshra.Bridge.SnapGensignAux', 'Ysshra.Bridge.SnapTls', 'Ysshra.Bridge.SnapKeyId'],
-    theorem_files=['Props/C03.lean', 'Bridge/Gensign.lean', 'Bridge/SnapGensignAux.lean', 'Bridge/SnapTls.lean', 'Bridge/SnapKeyId.lean'],
+    modules=['Ysshra.Props.C03', 'Ysshra.Bridge.Gensign', 'Ysshra.Bridge.SnapGensignAux', 'Ysshra.Bridge.SnapTls', 'Ysshra.Bridge.SnapKeyId', 'Ysshra.Props.C03b'],
+    theorem_files=['Props/C03.lean', 'Bridge/Gensign.lean', 'Bridge/SnapGensignAux.lean', 'Bridge/SnapTls.lean', 'Bridge/SnapKeyId.lean', 'Props/C03b.lean'],
     anchors=['gensign/', 'agent/ssh/', 'csr/', 'crypki/common.go'],
     n=dict(quick=600, thorough=30000),
     timeout=dict(quick=900, thorough=3400),
@@ -262,8 +262,8 @@ PROPS = {
  'C04': dict(
     group='gensign', only=['gs'], ops=['gs'],
     klass=lambda c: 'gs:runs' + str(c['args'][1].count(';') + 1) + ':' + ('ok' if 'res=ok' in ((c['model'] or [''])[0]) else 'noSuccess'),
-    modules=['Ysshra.Props.C04', 'Ysshra.Bridge.Gensign', 'Ysshra.Bridge.SnapGensignAux', 'Ysshra.Bridge.SnapTls', 'Ysshra.Bridge.SnapKeyId'],
-    theorem_files=['Props/C04.lean', 'Bridge/Gensign.lean', 'Bridge/SnapGensignAux.lean', 'Bridge/SnapTls.lean', 'Bridge/SnapKeyId.lean'],
+    modules=['Ysshra.Props.C04', 'Ysshra.Bridge.Gensign', 'Ysshra.Bridge.SnapGensignAux', 'Ysshra.Bridge.SnapTls', 'Ysshra.Bridge.SnapKeyId', 'Ysshra.Props.C04b'],
+    theorem_files=['Props/C04.lean', 'Bridge/Gensign.lean', 'Bridge/SnapGensignAux.lean', 'Bridge/SnapTls.lean', 'Bridge/SnapKeyId.lean', 'Props/C04b.lean'],
     anchors=['gensign/', 'agent/ssh/', 'csr/', 'crypki/common.go'],
     n=dict(quick=600, thorough=30000),
     timeout=dict(quick=900, thorough=3400),
